@@ -94,7 +94,7 @@ func main() {
 	for _, e := range entries {
 		for k := 0; k < perEntry; k++ {
 			g := &pk.G{R: run.Rng, E: e}
-			out := hx.Guard(20*time.Second, func() string { return one(run, g, e, &encErr) })
+			out := pk.GuardCPU(60*time.Second, 30*time.Minute, func() string { return one(run, g, e, &encErr) })
 			if out != "" {
 				run.Case(e.Name+"/guard", "gort "+ctxStr(e), out)
 			}
@@ -125,7 +125,7 @@ func main() {
 			for _, n := range []int{32768, 32769, 40000} {
 				e := entries[i]
 				g := &pk.G{R: run.Rng, E: e, Big: n}
-				out := hx.Guard(60*time.Second, func() string { return one(run, g, e, &encErr) })
+				out := pk.GuardCPU(120*time.Second, 30*time.Minute, func() string { return one(run, g, e, &encErr) })
 				if out != "" {
 					run.Case(e.Name+"/guard", "gort "+ctxStr(e), out)
 				}
@@ -231,7 +231,7 @@ func numberBounds(run *hx.Run) {
 	run.Case("nbconst", fmt.Sprintf("nbconst i64 %d %d", int64(brigodier.MinInt64), int64(brigodier.MaxInt64)), "ok")
 	pv := proto.Protocol(767)
 	emit := func(kind, mn, mx string, codec brigadier.ArgumentPropertyCodec, v any, show func(any) string) {
-		out := hx.Guard(5*time.Second, func() string {
+		out := pk.GuardCPU(30*time.Second, 30*time.Minute, func() string {
 			var buf bytes.Buffer
 			if err := codec.Encode(&buf, v, pv); err != nil {
 				return "err-enc"
